@@ -225,10 +225,10 @@ def step (s : St) (w : List String) : St × String :=
     | some x =>
       match s.sp.relink x, s.sp.find? x with
       | some sp', some t =>
-        -- "scramble": parent and predecessor links of everything below `x` are wiped before the call
+        -- "scramble": parent and predecessor links of everything below `x` are made wrong (they point to `x`) before the call
         let m0 : Res Store :=
           if rest = [] then .ok s.m
-          else (ids t.children).foldlM (fun m i => m.modify i fun y => { y with parent := none, prev := none }) s.m
+          else (ids t.children).foldlM (fun m i => m.modify i fun y => { y with parent := some x, prev := some x }) s.m
         finish s (m0.bind fun m => m.relink m.fuel x) sp' "-"
       | _, _ => precond s
     | none => (s, "bad-op")
